@@ -243,10 +243,78 @@ def check_gaussian_merge(rng):
             continue
 
 
+def run_interpreted(n, circuit):
+    """the compiler treats Kgate / Vgate / CKgate as opaque non-Gaussian barriers (it decides by class name); ANY fixed
+    unitary may stand for an opaque gate, so they are interpreted as (non-commuting) Gaussian gates and both circuits are
+    run exactly on the gaussian backend"""
+    prog = sf.Program(n)
+    with prog.context as q:
+        for k in range(n):
+            ops.Sgate(0.2 + 0.05 * k, 0.3 * k) | q[k]
+            ops.Dgate(0.1 * (k + 1), 0.5 * k) | q[k]
+        for c in circuit:
+            nm = type(c.op).__name__
+            regs = tuple(q[r.ind] for r in c.reg)
+            if nm.startswith("Measure"):
+                continue
+            if nm == "Kgate":
+                ops.Sgate(float(c.op.p[0]), 0.3) | regs
+            elif nm == "Vgate":
+                ops.Sgate(float(c.op.p[0]), 1.1) | regs
+            elif nm == "CKgate":
+                ops.CZgate(float(c.op.p[0])) | regs
+            else:
+                c.op | regs
+    st = sf.Engine("gaussian").run(prog).state
+    return st.means(), st.cov()
+
+
+def check_gaussian_merge_interpreted(rng):
+    cases = 120 if tier == "quick" else 1200
+    NG = [("Kgate", 1), ("Vgate", 1)]
+    one = [g for g in G1 if g[0] in ("Dgate", "Rgate", "Sgate")]
+    two = [g for g in G2 if g[0] in ("BSgate", "MZgate", "S2gate")]
+    for rep in range(cases):
+        n = 2 + rep % 4
+        EVAL[0] += 1
+        gates = []
+        for seg in range(rng.randint(2, 5)):
+            gates += random_gates(rng, list(range(n)), rng.randint(1, 5), one, two)
+            if rng.rand() < 0.25 and n > 1:
+                a, b = rng.choice(n, 2, replace=False)
+                gates.append(("CKgate", (float(rng.uniform(0.2, 0.5)),), (int(a), int(b)), False))
+            else:
+                name, _ = NG[rng.randint(2)]
+                gates.append((name, (float(rng.uniform(0.2, 0.5)),), (int(rng.randint(n)),), False))
+        gates += random_gates(rng, list(range(n)), rng.randint(0, 4), one, two)
+        prog = build(n, gates, measure="fock")
+        label = f"gaussian_merge n={n} gates={[(g[0], g[2]) for g in gates]}"
+        try:
+            comp = prog.compile(compiler="gaussian_merge")
+        except Exception as e:
+            bad(f"{label}: compile raised {type(e).__name__}: {str(e)[:150]}")
+            continue
+        key = lambda c: (type(c.op).__name__, tuple(r.ind for r in c.reg), tuple(round(float(x), 9) for x in c.op.p))
+        ng0 = sorted(key(c) for c in prog.circuit if type(c.op).__name__ in ("Kgate", "Vgate", "CKgate"))
+        ng1 = sorted(key(c) for c in comp.circuit if type(c.op).__name__ in ("Kgate", "Vgate", "CKgate"))
+        if ng0 != ng1:
+            bad(f"{label}: the non-Gaussian commands changed")
+            continue
+        try:
+            mu0, V0 = run_interpreted(n, prog.circuit)
+            mu1, V1 = run_interpreted(n, comp.circuit)
+        except Exception as e:
+            bad(f"{label}: running the compiled program raised {type(e).__name__}: {str(e)[:150]}; compiled = {[(type(c.op).__name__, [r.ind for r in c.reg]) for c in comp.circuit]}")
+            continue
+        err = max(abs(mu0 - mu1).max(), abs(V0 - V1).max())
+        if err > 1e-6:
+            bad(f"{label}: with the opaque gates interpreted as fixed unitaries the compiled program {[(type(c.op).__name__, [r.ind for r in c.reg]) for c in comp.circuit]} computes something else (max difference {err:.3g})")
+
+
 if __name__ == "__main__":
     rng = np.random.RandomState(seed + 11)
     np.random.seed(seed + 11)
-    for f in (check_unitary_compilers, check_dagger, check_gaussian_merge):
+    for f in (check_unitary_compilers, check_dagger, check_gaussian_merge, check_gaussian_merge_interpreted):
         try:
             f(rng)
         except Exception:
